@@ -56,7 +56,7 @@ var valPool = []string{"1.1.1.1", "sh", "a b", "x,y", "k=v", "日本", "v", "vv"
 var fieldPool = []string{"f", "usage", "load 1", "tür", "c", "Histogram1", "__bucket_5"}
 
 func genMetric(r *vh.Rand, malformed bool) gmetric {
-	m := gmetric{Name: []string{"cpu", "mem.used", "disk-io", "net|if"}[r.Intn(4)], NS: []string{"", "ns1", "prod"}[r.Intn(3)]}
+	m := gmetric{Name: []string{"cpu", "mem.used", "disk-io", "net|if"}[r.Intn(4)], NS: []string{"", "ns1", "prod", "a|b"}[r.Intn(4)]}
 	m.TS = fasttime.UnixMilliseconds() + int64(r.Range(-3000, 3000))*1000
 	nt := r.Intn(7)
 	for i := 0; i < nt; i++ {
@@ -266,6 +266,10 @@ func errCode(err error) int {
 	return 99
 }
 
+// heapStr: the influx path sanitises the request namespace in place (through an unsafe string-to-bytes view); a request's
+// namespace comes from the URL and lives on the heap, a string literal does not
+func heapStr(s string) string { return string(append([]byte(nil), s...)) }
+
 func sanitizeName(s string) string { return strings.ReplaceAll(s, "|", "_") }
 func sanitizeField(s string) string {
 	if strings.HasPrefix(s, "Histogram") {
@@ -361,7 +365,7 @@ func main() {
 	for i := 0; i < cfg.N; i++ {
 		g := genMetric(r, r.Chance(25))
 		lim := limSets[r.Intn(len(limSets))]
-		ns := []string{"", "", "req-ns"}[r.Intn(3)]
+		ns := heapStr([]string{"", "", "req-ns", "team|infra"}[r.Intn(4)])
 		sent := append(append([]kvs{}, g.Tags...), g.Enriched...)
 		x := newIDs(sent)
 		cvt := metric.NewProtoConverter(lim)
@@ -421,7 +425,7 @@ func main() {
 	for i := 0; i < cfg.N/2; i++ {
 		g := genMetric(r, false)
 		g.Compound = 0
-		ns := []string{"", "req-ns"}[r.Intn(2)]
+		ns := heapStr([]string{"", "req-ns", "team|infra"}[r.Intn(3)])
 		lim := limSets[0]
 		sent := append(append([]kvs{}, g.Tags...), g.Enriched...)
 		x := newIDs(sent)
